@@ -53,9 +53,6 @@ Definition fd_def (v : value) : fdef := {| fd_default := Some v; fd_factory := N
 Definition fd_fac (f : factory) : fdef := {| fd_default := None; fd_factory := Some f |}.
 Definition fd_has (fd : fdef) : bool :=
   match fd_default fd, fd_factory fd with None, None => false | _, _ => true end.
-(* `fval.default = v` on an existing Field object: the factory stays *)
-Definition fd_set_default (fd : fdef) (v : value) : fdef :=
-  {| fd_default := Some v; fd_factory := fd_factory fd |}.
 
 (* ---- annotations --------------------------------------------------------- *)
 Inductive gorigin := GConc (c : conc) | GAbstract | GClassVar.
@@ -234,7 +231,7 @@ Definition process_underscored (an : dict ty) (st : pwst) (under : pstr) : pwst 
         match dget public (cur st) with
         | None => f0
         | Some (CFieldObj fd) => fst (process_field fd (dget public an))
-        | Some c => fd_set_default f0 (attr_value c)
+        | Some c => fd_def (attr_value c)       (* fval = dataclass_field(default=v) *)
         end
       else fval1 in
     {| cur := ddel under (dset public (CProp true (Some fval2)) (cur st)); repls := repls1 |}.
